@@ -14,7 +14,7 @@ TRUSTED = ['Python 3 `re` on translated patterns (subset: literals, ^ $ \\< \\> 
 
 MARK = '#%#'
 W = '0-9A-Za-z_\x80-\U0010ffff'
-ALPHA = ['a', 'b', 'A', ' ', '_', '-', 'é', '中', '.', '/']
+ALPHA = ['a', 'b', 'A', ' ', '_', '-', 'é', '中', '.', '/', '\\']
 NEAT_META = set('\\.*+?[]{}()$|^')
 
 
@@ -260,8 +260,9 @@ class Spec:
         return line[b:e]
 
     def command(self, cmd, r, o):
-        """cmd = [kind, tokens or None, count, rest]; returns (ok, r, o)"""
-        kind, toks, cnt, rest = cmd
+        """cmd = [kind, tokens or None, count, rest] or [kind, tokens, count, rest, close] (close = the closing delimiter is
+        typed although nothing follows it); returns (ok, r, o)"""
+        kind, toks, cnt, rest = cmd[:4]
         if kind in '/?':
             if toks:
                 self.kw = toks
@@ -315,9 +316,9 @@ def expected(case, hide=False, offs=None):
 
 
 def typed_of(cmd):
-    kind, toks, cnt, rest = cmd
+    kind, toks, cnt, rest = cmd[:4]
     t = render_neat(toks, kind) if toks else ''
-    if rest:
+    if rest or (len(cmd) > 4 and cmd[4]):
         t += kind + rest
     return t
 
@@ -330,7 +331,7 @@ def keys_of(case):
     if case['col'] > 0:
         k += b'%dl' % case['col']
     for cmd in case['cmds']:
-        kind, toks, cnt, rest = cmd
+        kind, toks, cnt, rest = cmd[:4]
         if cnt != 1:
             k += b'%d' % cnt
         if kind in '/?':
@@ -378,7 +379,7 @@ def model_line(case):
     lines = ','.join(vlib.hx((l + '\n').encode('utf-8')) for l in case['text']) or '-'
     cmds = []
     for cmd in case['cmds']:
-        kind, toks, cnt, rest = cmd
+        kind, toks, cnt, rest = cmd[:4]
         if kind in '/?':
             cmds.append('%s%s:%d' % (kind, vlib.hx(typed_of(cmd).encode('utf-8')), cnt))
         else:
@@ -503,6 +504,40 @@ def gen_twin_case(rng):
 
 
 # ---------------------------------------------------------------------------------------------
+# backslashes in front of the closing delimiter.  re_read consumes a backslash TOGETHER WITH the byte after it: the
+# delimiter behind an even run of backslashes closes the pattern (which then ends in escaped backslashes, and a line
+# offset may follow), behind an odd run it is an escaped delimiter = a character of the pattern.  The buffers hold
+# a\  a/  a?  a\/  a\\ ... side by side, so that reading  /a\\/  as "a/" lands somewhere else, or lands at all.
+
+BS_TEXTS = [
+    ['start', 'a/ b', 'a\\ b', 'end'],
+    ['start', 'a\\ b', 'a? b', 'end'],
+    ['start', 'a/1 b', 'a\\ b', 'next', 'end'],
+    ['start', 'a/ b', 'a? b', 'end'],                                   # no a\ at all: /a\\/ must fail and stay
+    ['a\\/ a/ a\\ a? a\\\\', 'x a\\\\ a\\? a/', '  a?1 a/1', 'a\\', '\\ \\\\ /\\'],
+    ['é\\ é/ 中\\', '中? é\\\\/', 'é/-1 \\/', ' é\\'],
+]
+BS_WORDS = ['a\\', 'a\\', 'a\\\\', '\\', '\\\\', 'é\\', 'a\\/', 'a\\?', 'a\\/1', 'a\\\\/', 'a\\\\?', 'b a\\', '中\\', 'a/', 'a?', 'a/1', 'a?1', 'a\\ ']
+BS_RESTS = ['', '', '', '1', '-1', '+1', ' 1', '2', 'x', '+0', '-']
+
+
+def bs_cmds(rng, kind, w):
+    """a / or ? command for the literal w with its closing delimiter typed (rest may be empty), plus follow-ups"""
+    rest = rng.choice(BS_RESTS)
+    cmds = [[kind, L(w), rng.choice([1, 1, 1, 2]), rest, 1]]
+    t = rng.below(8)
+    if t == 0:
+        cmds.append(['n', None, 1, ''])
+    elif t == 1:
+        cmds.append(['N', None, 1, ''])
+    elif t == 2:
+        cmds.append([rng.choice('/?'), None, 1, rng.choice(BS_RESTS), 1])        # empty pattern, closing delimiter typed: the same pattern
+    elif t == 3:
+        cmds.append(['A', None, 1, ''])
+    return cmds
+
+
+# ---------------------------------------------------------------------------------------------
 # the remembered line offset: /pat/+N and ?pat?-N FOLLOWED by ^A, n, N, plain and empty patterns in one session
 
 OFF_TEXTS = [
@@ -623,6 +658,26 @@ def cases(ctx):
                                 if not rng.chance(1, 60 if ctx.quick else 6):
                                     continue
                                 out.append({'text': text, 'ic': True, 'row': r, 'col': c, 'cmds': cmds, 'src': 'offset'})
+    # patterns that end in backslashes, closing delimiter typed, line offsets behind it
+    for text in BS_TEXTS:
+        for r, line in enumerate(text):
+            for c in range(max(1, len(line))):
+                for w in BS_WORDS:
+                    for kind in '/?':
+                        if not rng.chance(1, 9 if ctx.quick else 1):
+                            continue
+                        if kind == '?' and '?' in w:
+                            continue            # \? in a ?...? search is the escaped delimiter: re_read hands the regex a bare ? (a repetition operator)
+                        out.append({'text': text, 'ic': rng.chance(3, 4), 'row': r, 'col': c, 'cmds': bs_cmds(rng, kind, w), 'src': 'backslash'})
+    for i in range(150 if ctx.quick else 3000):
+        pieces = ['a\\', 'a/', 'a?', 'a\\/', 'a\\?', 'a\\\\', 'a', '\\', '/', '?', 'b', ' ', ' ', '1']
+        text = [''.join(rng.choice(pieces) for _ in range(rng.choice([0, 1, 2, 3, 4, 5]))) for _ in range(rng.choice([1, 2, 3, 4]))]
+        w = ''.join(rng.choice(['a', 'a', '\\', '\\', '/', '?', 'b', '1']) for _ in range(rng.choice([1, 2, 2, 3, 4])))
+        if rng.chance(1, 2) and not w.endswith('\\'):
+            w += '\\'
+        r = rng.below(len(text))
+        out.append({'text': text, 'ic': True, 'row': r, 'col': rng.below(max(1, len(text[r]))), 'cmds': bs_cmds(rng, '/' if '?' in w else rng.choice('/?'), w),
+                    'src': 'backslash-random'})
     # ^A from every position
     for text in texts[:8]:
         for r, line in enumerate(text):
@@ -670,7 +725,25 @@ def run(ctx):
             res.disagree({'what': 'model driver failed: rc=%s, %d answers for %d requests' % (rc, len(mout), len(todo)), 'stderr': err[-800:]})
             mout = None
 
+    def in_domain(cmds):
+        # what the generator produces: an empty pattern only after a pattern has been given (with nothing remembered the
+        # editor searches for the empty regex, the specification says "no pattern": not a case of this check), n / N only
+        # after a search; the shrinker must not leave that domain by dropping the command that carries the pattern
+        have = havepat = False
+        for cmd in cmds:
+            if cmd[0] in '/?':
+                if not cmd[1] and not havepat:
+                    return False
+                have = havepat = True
+            elif cmd[0] == 'A':
+                have = True
+            elif not have:
+                return False
+        return True
+
     def fails(case):
+        if not in_domain(case['cmds']):
+            return False
         err, pos, _ = run_impl(exe, case)
         want, _ = expected(case)
         return err is not None or pos != want
@@ -721,6 +794,7 @@ def run(ctx):
                 err, pos, r = run_impl(exe, case)
                 want, oks = expected(case)
             nviol += 1
+            res.count('VIOLATING cases, src ' + case.get('src', 'replay').split(':')[0])
             res.violation({'what': err or 'cursor after the search commands is not where the property puts it',
                            'input': case, 'keys': keys_of(case).decode('utf-8', 'replace'),
                            'expected': {'cursor': want, 'found': oks}, 'observed': {'cursor': pos},
